@@ -137,6 +137,8 @@ func (gme *GCPMultiEndpoint) NewStream(ctx context.Context, desc *grpc.StreamDes
 
 func (gme *GCPMultiEndpoint) pickConn(ctx context.Context) *grpc.ClientConn {
 	name, ok := FromMEContext(ctx)
+	gme.mu.RLock()
+	defer gme.mu.RUnlock()
 	me, ook := gme.mes[name]
 	if !ok || !ook {
 		me = gme.mes[gme.defaultName]
@@ -146,6 +148,8 @@ func (gme *GCPMultiEndpoint) pickConn(ctx context.Context) *grpc.ClientConn {
 
 func (gme *GCPMultiEndpoint) Close() error {
 	var errs multiError
+	gme.mu.Lock()
+	defer gme.mu.Unlock()
 	for e, mc := range gme.pools {
 		mc.stopMonitoring()
 		if err := mc.conn.Close(); err != nil {
